@@ -47,7 +47,7 @@ LEVEL_NOTE = ('Trusted: the condition-stack semantics in bvf/refmodel.py Layoute
               'the property text), Hypothesis stateful engine.')
 
 ISA = {
-    'general': {'address_size': 16, 'endian': 'big', 'registers': ['a']},
+    'general': {'address_size': 16, 'endian': 'big', 'registers': ['a'], 'identifier': {'name': 'c08-cpu', 'version': '1.2.3'}},
     'operand_sets': {},
     'instructions': {'nop': {'bytecode': {'value': 0xEA, 'size': 8}}},
 }
@@ -286,6 +286,16 @@ class History(RuleBasedStateMachine):
         else:
             self.m.mute = max(0, self.m.mute - 1) if un else self.m.mute + 1
         self.add({'t': 'unmute', 'kw': kw} if un else {'t': 'mute', 'kw': 'mute'})
+
+    @precondition(lambda self: not self.m.dead)
+    @rule(which=st.sampled_from(['c08-cpu', 'c08-cpu >= 1.0.0', 'c08-cpu == 1.2.3', 'other-cpu', 'c08-cpu >= 2.0.0', 'c08-cpu < 1.2.3']))
+    def require(self, which):
+        met = which in ('c08-cpu', 'c08-cpu >= 1.0.0', 'c08-cpu == 1.2.3')
+        if self.m.active and not met:
+            return          # an unmet requirement in a compiled branch ends the assembly: C19's business
+        if not self.m.active:
+            self.feats.add('side-effect-in-unselected:require' + ('' if met else '-unmet'))
+        self.add({'t': 'require', 'text': which, 'met': met})
 
     @precondition(lambda self: not self.m.dead and self.nfile < 3)
     @rule(n=st.integers(1, 3))
